@@ -106,26 +106,30 @@ Fixpoint digits_loop (l : bytes) (acc nd : Z) (prev_us : bool) : option (Z * Z *
   | [] => if prev_us then None else Some (acc, nd, [])
   end.
 
-Definition py_int_bytes (v : bytes) : vres Z :=
-  let s := skip_space v in
-  let '(neg, s) := match s with
-                   | 43 :: t => (false, t)
-                   | 45 :: t => (true, t)
-                   | _ => (false, s)
-                   end in
+Definition py_int_body (neg : bool) (s : bytes) : vres Z :=
+  match digits_loop s 0 0 false with
+  | None => Exn K_ValueError
+  | Some (n, nd, rest) =>
+      if nd =? 0 then Exn K_ValueError else
+      match skip_space rest with
+      | _ :: _ => Exn K_ValueError
+      | [] => if nd >? MAX_STR_DIGITS then Exn K_ValueError
+              else VOk (if neg then - n else n)
+      end
+  end.
+
+Definition py_int_unsigned (neg : bool) (s : bytes) : vres Z :=
   match s with
-  | 95 :: _ => Exn K_ValueError                      (* leading underscore *)
-  | _ =>
-    match digits_loop s 0 0 false with
-    | None => Exn K_ValueError
-    | Some (n, nd, rest) =>
-        if nd =? 0 then Exn K_ValueError else
-        match skip_space rest with
-        | _ :: _ => Exn K_ValueError
-        | [] => if nd >? MAX_STR_DIGITS then Exn K_ValueError
-                else VOk (if neg then - n else n)
-        end
-    end
+  | c :: _ => if c =? 95 then Exn K_ValueError (* leading underscore *) else py_int_body neg s
+  | [] => py_int_body neg s
+  end.
+
+Definition py_int_bytes (v : bytes) : vres Z :=
+  match skip_space v with
+  | c :: t => if c =? 43 then py_int_unsigned false t
+              else if c =? 45 then py_int_unsigned true t
+              else py_int_unsigned false (c :: t)
+  | [] => py_int_unsigned false []
   end.
 
 (* try: content_length = int(value); if <gen_cl_bad>: raise <gen_cl_raised>
@@ -143,9 +147,30 @@ Record vstate := mkV {
   vs_path : option bytes;
   vs_scheme : option bytes;
   vs_seen : list bytes;          (* seen_pseudo_headers (a set; order irrelevant) *)
+  vs_cl : option Z;              (* seen_content_length *)
   vs_ecl : option Z              (* stream.expected_content_length as stored by this call *)
 }.
-Definition vstate_init : vstate := mkV false None None None [] None.
+Definition vstate_init : vstate := mkV false None None None [] None None.
+
+(* pseudo-header bookkeeping: seen_pseudo_headers.add(key) and the authority / path / scheme stores *)
+Definition store_pseudo (st : vstate) (key value : bytes) : vstate :=
+  let seen' := key :: vs_seen st in
+  if bytes_eqb key gen_key_authority then
+    mkV (vs_after st) (Some value) (vs_path st) (vs_scheme st) seen' (vs_cl st) (vs_ecl st)
+  else if bytes_eqb key gen_key_path then
+    mkV (vs_after st) (vs_authority st) (Some value) (vs_scheme st) seen' (vs_cl st) (vs_ecl st)
+  else if bytes_eqb key gen_key_scheme then
+    mkV (vs_after st) (vs_authority st) (vs_path st) (Some value) seen' (vs_cl st) (vs_ecl st)
+  else
+    mkV (vs_after st) (vs_authority st) (vs_path st) (vs_scheme st) seen' (vs_cl st) (vs_ecl st).
+
+Definition set_after (st : vstate) : vstate :=
+  mkV true (vs_authority st) (vs_path st) (vs_scheme st) (vs_seen st) (vs_cl st) (vs_ecl st).
+
+(* seen_content_length = content_length; if stream: stream.expected_content_length = content_length *)
+Definition store_cl (st : vstate) (use_stream : bool) (n : Z) : vstate :=
+  mkV (vs_after st) (vs_authority st) (vs_path st) (vs_scheme st) (vs_seen st) (Some n)
+      (if use_stream then Some n else vs_ecl st).
 
 Fixpoint vh_loop (allowed : list bytes) (use_stream : bool) (hs : list header) (st : vstate) : vres vstate :=
   match hs with
@@ -157,25 +182,13 @@ Fixpoint vh_loop (allowed : list bytes) (use_stream : bool) (hs : list header) (
       if vs_after st then message_error else
       if negb (mem_bytes key allowed) then message_error else
       if mem_bytes key (vs_seen st) then message_error else
-      let seen' := key :: vs_seen st in
-      let st' :=
-        if bytes_eqb key gen_key_authority then
-          mkV (vs_after st) (Some value) (vs_path st) (vs_scheme st) seen' (vs_ecl st)
-        else if bytes_eqb key gen_key_path then
-          mkV (vs_after st) (vs_authority st) (Some value) (vs_scheme st) seen' (vs_ecl st)
-        else if bytes_eqb key gen_key_scheme then
-          mkV (vs_after st) (vs_authority st) (vs_path st) (Some value) seen' (vs_ecl st)
-        else
-          mkV (vs_after st) (vs_authority st) (vs_path st) (vs_scheme st) seen' (vs_ecl st) in
-      vh_loop allowed use_stream t st'
+      vh_loop allowed use_stream t (store_pseudo st key value)
     else
-      let st1 := mkV true (vs_authority st) (vs_path st) (vs_scheme st) (vs_seen st) (vs_ecl st) in
+      let st1 := set_after st in
       if bytes_eqb key gen_key_content_length then
         vbind (parse_content_length value) (fun n =>
-          vh_loop allowed use_stream t
-            (if use_stream
-             then mkV true (vs_authority st) (vs_path st) (vs_scheme st) (vs_seen st) (Some n)
-             else st1))
+          if match vs_cl st1 with Some m => gen_cl_conflict n m | None => false end then message_error else
+          vh_loop allowed use_stream t (store_cl st1 use_stream n))
       else if bytes_eqb key gen_key_transfer_encoding && negb (bytes_eqb value gen_te_value) then message_error
       else vh_loop allowed use_stream t st1))
   end.
